@@ -1,6 +1,9 @@
 package main
 
 import (
+	"fmt"
+	"os"
+	"strconv"
 	"time"
 
 	"0chain.net/smartcontract/stakepool/spenum"
@@ -142,6 +145,7 @@ func (s *scen) readAlphabet(wide bool) []chainsim.Action {
 		s.readRedeem("A", 0, "c0", 2, "", 0),
 		s.readRedeem("B", 1, "c0", 2, "", 0),
 		s.readRedeem("A", 1, "c0", 3, "c1", 2),
+		s.readRedeem("A", 1, "c0", 3, "key:c1", 2),
 		s.readRedeem("A", 1, "c1", 2, "", 0),
 		s.readRedeem("A", 3, "c0", 1, "", 2),
 		s.readPoolLock("c0", 1e6, 0),
@@ -170,12 +174,12 @@ func (s *scen) freeAlphabet(wide bool) []chainsim.Action {
 		s.freeAlloc("c3", "c1", 0, 3.5, 5, "", bl, 2),
 		s.freeAlloc("c1", "c1", 1, 3.5, 1, "", bl, 0),
 		s.freeAlloc("c1", "c1", 1, 3.5, 1, "a0", bl, 2),
+		s.addAssigner("scowner", 1, 3.5, 7, 0),
+		s.addAssigner("c1", 0, 50, 70, 2),
 	}
 	if wide {
 		a = append(a,
 			s.freeAlloc("c3", "c3", 1, 3.25, 2, "", bl, 0),
-			s.addAssigner("scowner", 1, 3.5, 7, 0),
-			s.addAssigner("c1", 0, 50, 70, 2),
 			s.cancel("dyn:c1", "c1", 0, 0),
 			s.readPoolUnlock("c1", 0),
 		)
@@ -183,41 +187,103 @@ func (s *scen) freeAlphabet(wide bool) []chainsim.Action {
 	return a
 }
 
-// lateFailing: calls that fail after the contract already wrote nodes / queued transfers.
+// lateFailing: calls that fail after the contract already wrote nodes / queued transfers (the
+// evidence tags every failure late/early from the keytap record).
 func (s *scen) lateFailing() []chainsim.Action {
 	return []chainsim.Action{
-		s.writePoolLock("nosuch", "c0", ZCN, 7),                      // transfer queued, then allocation not found
-		s.newAlloc("c1", []int{0, 1, 2}, allocSize, ZCN, 7),           // blobbers and offers saved, then funding check fails
-		s.update("A", "c0", GB, false, -1, -1, 0, 0, 7),               // blobbers/offers rewritten, then not enough tokens
-		s.update("A", "c0", 0, false, 3, 0, 0, 0, 7),                  // blobber replaced (rewards, pools), then not enough tokens
-		s.commit("A", 0, 2000<<20, "", 7),                             // exceeds blobber allocation size after stats changed
-		s.readRedeem("A", 1, "c3", 2, "", 7),                          // empty read pool created, then not enough tokens
-		s.freeAlloc("c1", "c1", 0, 0.5, 9, "", []int{1, 2, 3}, 7),      // assigner accepted, allocation built, then under-funded
-		s.stake("c3", spenum.Blobber, "b0", 30000*ZCN, 7),             // above max stake
-		s.challengeResponse("A", 0, "forged", 0, 7),                   // tickets fail verification
-		s.challengeResponse("A", 0, "pass", 3, 7),                     // expired challenge
-		s.cancel("A", "c1", 0, 7),                                     // not the owner
-		s.finalize("A", "c0", 0, 7),                                   // not expired yet
-		s.unstake("c2", spenum.Blobber, "b0", 7),                      // stake needed for offers
-		s.kill("c1", "b1"),                                            // partitions touched, then not authorised
+		s.writePoolLock("nosuch", "c0", ZCN, 7),                   // transfer queued, then allocation not found
+		s.newAlloc("c1", []int{0, 1, 2}, allocSize, ZCN, 7),        // blobbers and offers saved, then funding check fails
+		s.update("A", "c0", 2*GB, false, -1, -1, 0, 0, 7),          // blobbers/offers rewritten, then not enough tokens
+		s.update("A", "c0", 2*GB, false, 3, 0, 0, 0, 7),            // blobber replaced (rewards, pools, partitions), then not enough tokens
+		s.readRedeem("A", 1, "c3", 2, "", 7),                       // empty read pool created, then not enough tokens
+		s.freeAlloc("c1", "c1", 0, 0.5, 9, "", []int{1, 2, 3}, 7),   // assigner accepted, allocation built, then under-funded
+		s.challengeResponse("A", 0, "forged", 0, 7),                // tickets fail verification
+		s.unstake("c2", spenum.Blobber, "b0", 7),                   // rewards minted, then stake needed for offers
+		s.kill("c1", "b1"),                                         // partitions touched, then not authorised
+		s.dupValidator("c3", 0, 7),                                 // partition + node written, then url already used
+		s.updateBlobberURL("b0", 7*ZCN, 7),                         // url nodes rewritten, then staked capacity too small
+		s.cancel("A", "c0", 0, 7),                                  // (after kill, kill) open challenges settled, then offer cannot be released
 	}
 }
 
 func (s *scen) explore(run *ev.Run, acts []chainsim.Action, roots [][]chainsim.Action, dq, dt int, mons ...chainsim.Monitor) {
 	mons = append([]chainsim.Monitor{s.harnessMonitor, s.tagMonitor}, mons...)
-	e := &chainsim.Explorer{Run: run, W: s.w, Actions: acts, Roots: roots, Depth: run.Pick(dq, dt), Monitors: mons,
-		Budget: time.Duration(run.Pick(55, 800)) * time.Second}
 	run.Assumptions = append(run.Assumptions,
 		"scenario S: 4 blobbers, 2 validators, delegate c2, registered/staked/allocated through real signed transactions; storage time_unit 20s, max_challenge_completion_rounds 3, block reward trigger_period 10, validators_per_challenge 2, hard forks electra+demeter active from round 1",
 		"contract nodes are typed by the Go type the contract inserted at that trie path (keytap hook) and every leaf of every post-state is visited",
 		"cold state cache per transition; in-memory grocksdb stand-in; one transaction per block; block time advances 1 s per step unless the action says otherwise")
-	e.Explore()
+	mk := func(r [][]chainsim.Action) *chainsim.Explorer {
+		legend := "roots:"
+		for i, n := range rootNames {
+			if len(r) == len(rootNames) {
+				legend += fmt.Sprintf(" root%d=%s", i, n)
+			}
+		}
+		if len(r) == 1 && len(rootNames) > 1 {
+			i, _ := strconv.Atoi(os.Getenv("VERIF_STAGE"))
+			legend += " root0=" + rootNames[i]
+		}
+		return &chainsim.Explorer{Run: run, W: s.w, Actions: acts, Roots: r, Depth: run.Pick(dq, dt), Monitors: withLegend(mons, legend),
+			Budget: time.Duration(run.Pick(55, 800)) * time.Second}
+	}
+	if !run.Thorough() || len(roots) < 2 {
+		mk(roots).Explore()
+		return
+	}
+	// thorough tier: one exploration per root state, one after the other (worker processes of a
+	// stage exit before the next stage starts, which bounds the memory in use)
+	if os.Getenv("VERIF_SHARD") != "" {
+		i, _ := strconv.Atoi(os.Getenv("VERIF_STAGE"))
+		mk(roots[i : i+1]).Explore() // does not return
+	}
+	var states int64
+	outcomes := map[string]int64{}
+	rejected := int64(0)
+	depthDone := run.Pick(dq, dt)
+	for i := range roots {
+		os.Setenv("VERIF_STAGE", strconv.Itoa(i))
+		mk(roots[i : i+1]).Explore()
+		states += run.States
+		if m, ok := run.Extra["transition_outcomes"].(map[string]int64); ok {
+			for k, c := range m {
+				outcomes[k] += c
+			}
+		}
+		if r, ok := run.Extra["rejected_transactions"].(int64); ok {
+			rejected += r
+		}
+		if d, ok := run.Bounds["depth_fully_completed"].(int); ok && d < depthDone {
+			depthDone = d
+		}
+	}
+	run.States = states
+	run.Extra["transition_outcomes"] = outcomes
+	run.Extra["rejected_transactions"] = rejected
+	run.Bounds["roots"] = len(roots)
+	run.Bounds["depth_fully_completed"] = depthDone
+	run.Bounds["stages"] = len(roots)
 }
+
+// rootNames remembers the names of the root scripts handed to explore (legend for replays).
+var rootNames []string
 
 func pick(run *ev.Run, m map[string][]chainsim.Action, names ...string) [][]chainsim.Action {
 	var out [][]chainsim.Action
+	rootNames = names
 	for _, n := range names {
 		out = append(out, m[n])
+	}
+	return out
+}
+
+// withLegend appends the meaning of "rootN" in the reported path to every violation text.
+func withLegend(mons []chainsim.Monitor, legend string) []chainsim.Monitor {
+	out := make([]chainsim.Monitor, len(mons))
+	for i, m := range mons {
+		m := m
+		out[i] = func(st *chainsim.Step, v func(key, what string)) {
+			m(st, func(key, what string) { v(key, what+" | "+legend) })
+		}
 	}
 	return out
 }
@@ -240,7 +306,7 @@ func c14(run *ev.Run, variant string) {
 	s := newScen(0.1)
 	r := s.roots()
 	run.Rule = "BFS over sequences of cancel/finalize by owner, blobber, stranger before and after expiry (repeated), then write-pool lock, update, write marker, challenge response, read marker on the closed allocation; oracle per transition: a close succeeds only for an authorised caller at the right time on an existing allocation and removes allocation and challenge pool; blobbers receive <= outstanding challenge value + cancellation charge; owner refund + blobber payments == write pool + challenge pool; any operation naming a closed allocation fails and changes only fee/nonce"
-	s.explore(run, s.closeAlphabet(run.Thorough()), pick(run, r, "AW", "AWC", "A"), 3, 4, s.closeMonitor)
+	s.explore(run, s.closeAlphabet(run.Thorough()), pick(run, r, "AW", "AWC", "AWK"), 3, 4, s.closeMonitor)
 }
 
 func c15(run *ev.Run, variant string) {
@@ -268,9 +334,11 @@ func c09(run *ev.Run, variant string) {
 		acts := append(s.lifeAlphabet(run.Thorough()), s.collect("c2", spenum.Blobber, "b1"), s.unstake("c2", spenum.Blobber, "b3", 0))
 		s.explore(run, acts, pick(run, r, "AW", "AWC"), 3, 4, s.liabMonitor)
 	case "close":
-		s.explore(run, append(s.closeAlphabet(run.Thorough()), s.capAlphabet(false)[:2]...), pick(run, r, "AW", "AWK"), 3, 4, s.liabMonitor)
+		s.explore(run, s.closeAlphabet(run.Thorough()), pick(run, r, "AWC", "AWK"), 2, 4, s.liabMonitor)
+	case "cap":
+		s.explore(run, s.capAlphabet(run.Thorough()), pick(run, r, "AW"), 2, 4, s.liabMonitor)
 	case "read":
-		s.explore(run, s.readAlphabet(run.Thorough()), pick(run, r, "AB"), 4, 5, s.liabMonitor)
+		s.explore(run, s.readAlphabet(run.Thorough()), pick(run, r, "AB"), 3, 5, s.liabMonitor)
 	case "free":
 		s.explore(run, s.freeAlphabet(true), pick(run, r, "F"), 3, 4, s.liabMonitor)
 	default:
@@ -282,6 +350,6 @@ func c02(run *ev.Run, variant string) {
 	s := newScen(0.1)
 	r := s.roots()
 	run.Rule = "storage contract: BFS over late-failing calls (calls that return an error after nodes were written or transfers queued) interleaved with the successful calls that enable them; oracle on every transition that ends with status error: leaf diff = sender (-fee, nonce+1) and miner-contract wallet (+fee) only, exactly one error event"
-	acts := append(s.lateFailing(), s.genChallenge(0), s.cancel("A", "c0", 0, 0), s.readPoolLock("c0", 1e6, 0))
-	s.explore(run, acts, pick(run, r, "AW", "F"), 2, 3, failMonitor)
+	acts := append(s.lateFailing(), s.genChallenge(0), s.kill("scowner", "b0"), s.challengeResponse("A", 0, "pass", 0, 0))
+	s.explore(run, acts, pick(run, r, "AWC", "F"), 3, 4, failMonitor)
 }
